@@ -246,3 +246,46 @@ func vh_icmp4_arbitrary() {
 	env.e.handleICMP(&env.r, vhPkt(b, vnChoice("split", 2)*8))
 	vreach("icmp")
 }
+
+// ---------- C06: emitted IPv4 packets ----------
+func vh_emit_ipv4() {
+	env := vhNewEnv()
+	hashIV = 1 // the flow hash only selects the identification counter; any counter value is covered
+	n := vnChoice("hdrlen", 3) * 8 // transport header bytes already prepended: 0, 8, 16
+	m := []int{0, 3, 50}[vnChoice("paylen", 3)]
+	hdr := buffer.NewPrependable(20 + n)
+	th := hdr.Prepend(n)
+	copy(th, vnBytes("thdr", n))
+	payload := make([]byte, m)
+	for i := range payload {
+		payload[i] = byte(i)
+	}
+	var vv buffer.VectorisedView
+	if m > 0 {
+		vv = buffer.View(payload).ToVectorisedView()
+	}
+	// the protocol number also selects the identification counter (flow hash): enumerate it
+	ttl, proto := vnU8("ttl"), []uint8{1, 6, 17, 250}[vnChoice("proto", 4)]
+	err := env.e.WritePacket(&env.r, hdr, vv, tcpip.TransportProtocolNumber(proto), ttl)
+	vassert(err == nil && len(env.link.Sent) == 1, "one packet is handed to the link layer")
+	f := env.link.Sent[0]
+	h := f.Hdr
+	vassert(f.Proto == ProtocolNumber && len(h) == 20+n && h[0] == 0x45, "IPv4, IHL 5, in front of the transport header")
+	vassert(int(h[2])<<8|int(h[3]) == 20+n+m && len(f.Payload) == m, "total length = header + transport header + payload")
+	vassert(h[8] == ttl && h[9] == proto && h[6]&0xe0 == 0 && (int(h[6])&0x1f)<<8|int(h[7]) == 0, "TTL and protocol as requested; not a fragment")
+	vassert(vhSame(h[12:16], []byte(vhLocal)) && vhSame(h[16:20], []byte(vhRemote)), "source = the route's local address, destination = its remote address")
+	hz := append([]byte{}, h[:20]...)
+	ck := uint16(hz[10])<<8 | uint16(hz[11])
+	hz[10], hz[11] = 0, 0
+	vassert(ck == ^vhSum(hz, 0), "the header checksum is the complemented RFC 1071 sum of the header")
+	// a second large packet of the same flow gets a different identification
+	if 20+n+m > 68 {
+		hdr2 := buffer.NewPrependable(20 + n)
+		hdr2.Prepend(n)
+		env.e.WritePacket(&env.r, hdr2, vv, tcpip.TransportProtocolNumber(proto), ttl)
+		h2 := env.link.Sent[1].Hdr
+		vassert(h[4] != h2[4] || h[5] != h2[5], "consecutive large packets of one flow carry different IP identifiers")
+		vreach("ids")
+	}
+	vreach("ipv4")
+}
